@@ -825,12 +825,41 @@ func (e *Engine) step(st *State, fr *Frame, ins ssa.Instruction, idx int, q *pqu
 		m := xv.(MapV)
 		mt := x.X.Type().Underlying().(*types.Map)
 		key := e.get(fr, x.Index)
-		val, present := e.mapLookup(st, m, key, mt.Elem())
-		if x.CommaOk {
-			fr.regs[x] = TupleV{val, present}
-		} else {
-			fr.regs[x] = val
+		alts := e.mapLookupAlts(st, m, key, mt.Elem())
+		if len(alts) > 1 {
+			var feas []mapAlt
+			for _, a := range alts {
+				if e.feasible(st, a.cond, "map lookup case") {
+					feas = append(feas, a)
+				}
+			}
+			alts = feas
 		}
+		if len(alts) == 0 {
+			return false
+		}
+		set := func(f *Frame, a mapAlt) {
+			if x.CommaOk {
+				f.regs[x] = TupleV{a.val, a.found}
+			} else {
+				f.regs[x] = a.val
+			}
+		}
+		if len(alts) == 1 {
+			set(fr, alts[0])
+			break
+		}
+		for k, a := range alts {
+			s2, f2 := st, fr
+			if k < len(alts)-1 {
+				s2, f2 = st.fork(), fr.clone()
+				e.stats.States++
+			}
+			s2.assume(a.cond)
+			set(f2, a)
+			e.execBlock(s2, f2, idx+1, q, exits)
+		}
+		return false
 	case *ssa.MakeMap:
 		mt := x.Type().Underlying().(*types.Map)
 		id := e.alloc(st, &MapObj{KeyT: mt.Key(), ValT: mt.Elem()})
